@@ -22,8 +22,8 @@ What is true of the current code (after the repairs /repo d36bee1, 6e0070e, d270
 * tags: full strength (`completion_tag_is_line_tag_or_star`, `error_tag`): the completion carries the line's own
   tag when it has one and `*` otherwise. Before the repairs this was false in two ways (late errors, empty
   instead of `*`): the former witnesses are kept as regression examples.
-* lines that are dropped without any reply: `first_line_with_bad_first_byte_is_dropped` (witness; still in the
-  code: known finding), besides the deliberate TLS-record-header close. STARTTLS without TLS configuration is
+* lines that are dropped without any reply: `first_line_with_bad_first_byte_is_dropped` and
+  `bare_lf_swallows_next_line` (witnesses; still in the code), besides the deliberate TLS-record-header close. STARTTLS without TLS configuration is
   answered NO now (regression example).
 * `max_errors_close`, `fewer_errors_do_not_close`, `success_resets_counter`, `session_usable_after_error`:
   full strength over the model, given the facts `sessionCfg` is built from (`session_facts_known`).
@@ -116,11 +116,30 @@ theorem every_line_ends_with_lf (cfg : Cfg) (fuel : Nat) (s : PState) (l : Line)
   readStep_line_lf cfg fuel s l s' h
 
 /-- "A line ends at CRLF" is FALSE of the code: after a parse error the reader skips to the next LF, bare or
-not. `a NOOP␍X␊b NOOP␍␊` contains one CRLF and gets two completions. (RFC 3501 knows no bare LF; the
-behaviour is lenient, not dangerous: the oracle counts it, it does not report it.) -/
+not. `a NOOP␍X␊b NOOP␍␊` contains one CRLF and gets two completions. (RFC 3501 knows no bare LF; this half of
+the behaviour is lenient, not dangerous: the oracle counts it, it does not report it.) -/
 theorem bare_lf_splits_line :
     crlfCount (kw "a NOOP\rX\nb NOOP\r\n") = 1 ∧
     ((run (sessionCfg false) okBackend () (kw "a NOOP\rX\nb NOOP\r\n")).out.map (·.cls)) = [.bad, .ok] := by
+  constructor <;> decide +kernel
+
+/-- the statement shape of `Parser.ConsumeInvalidInput` is one the model knows (`Generated/Facts/Parse.lean`) -/
+theorem skip_shape_known : consumeInvalidInputShapeKnown = true := by decide
+
+/-- **A well-formed line can be LOST** (`cause=bare-lf-swallows-next-line`): when a line is ended by a bare LF
+directly after something the parser takes to the end (`a NOOP␊`, `a FOO␊`), the failed `Parse` stops with that
+LF as its look-ahead token — the LF has already left the source — and `ConsumeInvalidInput`
+(`ReadBytes('\n')` on the source) skips the NEXT line, whatever it is. The client gets no answer to `a NOOP␊`
+until it has sent another line, then `a BAD`, and never an answer to that other line: `b NOOP` below is a
+complete, well-formed command line that is not answered. Stated under what the facts say the source does: with
+the repair the model provides for (`skipStopsAtLookaheadLF`: return at once when the current token is LF) the
+same stream gets three completions. -/
+theorem bare_lf_swallows_next_line :
+    (skipStopsAtLookaheadLF = false →
+      (run (sessionCfg false) okBackend () (kw "a NOOP\nb NOOP\r\nc NOOP\r\n")).out = [⟨kw "a", .bad⟩, ⟨kw "c", .ok⟩]) ∧
+    (skipStopsAtLookaheadLF = true →
+      (run (sessionCfg false) okBackend () (kw "a NOOP\nb NOOP\r\nc NOOP\r\n")).out
+        = [⟨kw "a", .bad⟩, ⟨kw "b", .ok⟩, ⟨kw "c", .ok⟩]) := by
   constructor <;> decide +kernel
 
 /-- **`line_is_up_to_first_lf_partial`** — what a line is, independently of the parser, under two NAMED hypotheses
@@ -320,10 +339,10 @@ theorem error_tag (tls : Bool) (fuel : Nat) (s : PState) (hf : s.rest.length < f
 
 /-- regression of `cause=late-error-empty-tag` (repaired by /repo d36bee1; was the witness `late_error_loses_tag`):
 trailing garbage after a complete command — an error `Parse` finds at the final CR / LF — is answered with the
-line's own tag; so is a bare-LF line -/
+line's own tag; so is a bare-LF line (what becomes of the line after it: `bare_lf_swallows_next_line`) -/
 example :
     (run (sessionCfg false) okBackend () (kw "a NOOP x\r\nb NOOP\r\n")).out = [⟨kw "a", .bad⟩, ⟨kw "b", .ok⟩] ∧
-    (run (sessionCfg false) okBackend () (kw "a NOOP\nb NOOP\r\nc NOOP\r\n")).out = [⟨kw "a", .bad⟩, ⟨kw "c", .ok⟩] := by
+    (run (sessionCfg false) okBackend () (kw "a NOOP\nb NOOP\r\nc NOOP\r\n")).out.head? = some ⟨kw "a", .bad⟩ := by
   decide +kernel
 
 /-- regression of `cause=untagged-line-empty-tag` (repaired by /repo 6e0070e; was the witness
